@@ -8,7 +8,7 @@
      decode_layout   : the independent decoder inverts the independent encoder. *)
 From Coq Require Import ZArith List Bool Lia.
 From Catii Require Import Base.Cases Dtype.FitSpec Dtype.FitHand Dtype.FitTactics Dtype.FitProofs.
-From Catii Require Import Indx.Bytes Indx.Layout Indx.Save Indx.Load.
+From Catii Require Import Indx.Bytes Indx.BytesFacts Indx.Layout Indx.Save Indx.Load.
 Import ListNotations.
 Open Scope Z_scope.
 
@@ -627,4 +627,15 @@ Proof.
   - exact C1.
   - apply nodup_b_spec. exact C0.
   - exact C.
+Qed.
+
+(* C11 "narrowest": the chosen word size holds every index word, no documented size below it does, and it
+   is what fit_dtype picks *)
+Theorem narrowest_spec m : 0 <= m < 2 ^ 64 ->
+  In (narrowest_ws m) [1; 2; 4; 8]%nat /\ fits (narrowest_ws m) m /\
+  (forall w, In w [1; 2; 4; 8]%nat -> fits w m -> (narrowest_ws m <= w)%nat) /\
+  itemsize (fit_dtype m 0) = Z.of_nat (narrowest_ws m).
+Proof.
+  intros H. split; [apply narrowest_in|]. split; [apply (narrowest_fits m m); lia|].
+  split; [intros w Hw Hf; apply narrowest_least; [lia|exact Hw|exact Hf]|apply fit_is_narrowest; lia].
 Qed.
